@@ -213,7 +213,8 @@ def process_noise(k=0):
                     f = factor_add_terms_ex(get_term_ex(MultiplyExpression(ConstantExpression(c), VariableExpression("x"))),
                                             get_term_ex(MultiplyExpression(ConstantExpression(c * (1 + k % 3)), VariableExpression("y" if k % 2 else "x"))))
                     if f is not False and f is not None:
-                        for tbl in (f.all_left, f.all_right, f.common_factors):
+                        for attr in ("all_left", "all_right", "common_factors", "factors"):
+                            tbl = getattr(f, attr, None)
                             if hasattr(tbl, "clear"):
                                 tbl.clear()
                     d = factor(c)
